@@ -102,6 +102,30 @@ R4 = {
 for _k, _v in R4.items():
     CHECKS[_k]["text"] += " " + _v
 
+# additions of seeding round 5
+R5 = {
+ "C01": "Σ also contains 25 idiom contexts (each idiom of section 8 with one operand left open, filled with every expression alternative).",
+ "C02": "The item pool under 0.7.6 / 0.8.3 / 0.8.19 with SafeMath attached (chained calls, multi-part strings) is swept in location mode; Λ has 15 separators incl. exotic white space (VT, FF, NBSP, ideographic space) and annotation comments.",
+ "C03": "Plus files that import each other (cyclic, self, missing, nested), a Base / Derived pair across files, and 30 directory / file names with characters special to shells, globs, lists, URLs and format strings next to a sibling named like the prefix.",
+ "C04": "Plus 24 escape sequences (well-formed and cut short) x 4 literal kinds as revert string / hashed data under 0.8.3 and 0.8.19, and the 25 idiom contexts x every expression alternative.",
+ "C05": "Idiom contexts: every expression alternative as the open operand of each idiom; && in later require arguments.",
+ "C06": "Plus every permutation of {visibility, constant | immutable, override | override(I)} on state variables and 14 name shapes (upper case, digits, $, bare _, inner / trailing / double underscore, non-ASCII) for variables and functions.",
+ "C08": "Parameter forms include reads of the parameter inside the index / key of another variable's assignment target.",
+ "C09": "SafeMath attached also through a qualified path (using Math.SafeMath) and for *.",
+ "C10": "Plus empty structs / contracts next to packable and optimal ones in every order, with and without a multi-byte header comment and without a trailing line feed; a panic while a container must be reported counts as a miss.",
+ "C11": "Plus placeholder-like names ({line}, {}, %s, $1, ...), digit runs up to 2^64 and beyond, non-ASCII numerals (alone and in ordered pairs), and line sets with runs of adjacent lines and the lines 0, 1, i32::MAX.",
+ "C12": "Plus line sets with runs of 2, 3, 5 adjacent lines and the lines 0, 1, i32::MAX for every pattern.",
+ "C13": "All 30 patterns under every listing order (5! x 2!) of a tree with a Base / Derived pair; every 3-subset of 14 order-sensitive file names in all 6 discovery orders through each generator; thorough: up to 8 map keys (all 40 320 iteration orders witnessed).",
+ "C14": "Unknown names include 17 pattern-like and prefix strings (sstor., .*, sstore|nothing, sstor, ...).",
+ "C15": "Plus lists that name a pattern twice ([a, b, a] for every ordered pair of a category, [a, a]) and runs of the unhooked binary: every pattern alone and together with one pattern of each other category lists the same entries.",
+ "C16": "Ineligible names with digit runs beyond u64 and non-ASCII numerals; an eligible pragma-less file that imports its ineligible neighbours by name; the selection includes the version-gated patterns.",
+ "C17": "Λ has 15 separators incl. VT / FF / NBSP / ideographic space and annotation comments (NatSpec tags, linter directives).",
+ "C18": "Histories of <= 2 runs also from a tree whose report exceeds a megabyte; histories of <= 2 actions also from a tree with control and quoting characters in file names.",
+ "C19": "The pool has 36 templates, incl. items with doc comments inside and arithmetic in initialisers / base arguments.",
+}
+for _k, _v in R5.items():
+    CHECKS[_k]["text"] += " " + _v
+
 NOT_YET = "check not built yet in this revision of /verif (see DESIGN.md section 7 for the planned decision procedure)"
 
 def main():
